@@ -1332,8 +1332,13 @@ private:
          m_ctx.get_widening_set().count(callee_cg_node) > 0);
 
     AbsDom callee_entry = m_absval_fac.make_top();
-    if (m_ctx.analyze_recursive_functions() ||
-	m_ctx.get_widening_set().count(callee_cg_node) <= 0) {
+    // The callee is recursive if it is the head of a call graph cycle
+    // or any other member of the cycle: the cycle is not always
+    // entered through its head.
+    const bool is_callee_recursive =
+        (m_ctx.get_widening_set().count(callee_cg_node) > 0 ||
+         m_ctx.included_nested_wto_component(callee_cg_node));
+    if (m_ctx.analyze_recursive_functions() || !is_callee_recursive) {
       // If we do not analyze precisely recursive functions then we
       // must start the analysis of a recursive procedure without
       // propagating from caller to callee (i.e., top).
